@@ -1543,8 +1543,17 @@ def external(fr, name, args, kw, n):
         if length is None:
             c = const_of(fr, v)
             if c is None:
-                return I.opaque("int2ba without length on abstract int")
-            length = max(c.bit_length(), 1)
+                # minimal-width result: its length depends on the value — the position of the leading one is decided
+                # bit by bit from the top (a fork per candidate length; the lower bits stay symbolic)
+                if not isinstance(A, AInt) or A.ext is not None or A.signed or len(A.bits) > 16:
+                    return I.opaque("int2ba without length on abstract int")
+                length = 1
+                for j in range(len(A.bits) - 1, 0, -1):
+                    if I.decide_eq([A.bits[j]], 1, f"int2ba-width:{n.lineno}:bit{j}"):
+                        length = j + 1
+                        break
+            else:
+                length = max(c.bit_length(), 1)
         length = fr.cint(length)
         c = const_of(fr, v)
         if c is not None and c >= (1 << length):
